@@ -1,6 +1,6 @@
 (* C15_Props.v — the property theorems of C15 and nothing else.
    Each is closed by `exact <lemma>` and followed by Print Assumptions. *)
-From V Require Import C15_Spec C15_Proofs.
+From V Require Import C15_Spec C15_Proofs C15_ProofsL3.
 Open Scope N_scope.
 
 (* ---- L1: transparency.  Whatever state the tracer is in (any conn value, reachable or not), whatever
@@ -52,3 +52,32 @@ Theorem broken_absorbing : forall dec st chunks,
   f_broken st = true -> ft_feed dec st chunks = (st, []).
 Proof. exact broken_absorbing_proof. Qed.
 Print Assumptions broken_absorbing.
+
+(* ---- L1/L3: never crashes.  For ANY op list (any bytes, cut anyhow into Reads and Writes, any inner-conn
+   errors, short writes, Close, timer expiry), any HPACK decoders, client or server side: the run exists (no nil
+   dereference anywhere in the tracer; in the model a Go panic is the outcome None) and every op returns the
+   inner conn's result. *)
+Theorem never_crashes : forall dec_r dec_w server ops,
+  exists c rs, conn_run dec_r dec_w (conn_init server) ops = Some (c, rs) /\ Forall2 transparent_res ops rs.
+Proof. exact never_crashes_proof. Qed.
+Print Assumptions never_crashes.
+
+(* ---- L3: attribution.  For ALL lists of decoded frames (any number of concurrent streams, any interleaving,
+   well-formed or not): the traces stream s completes, and the state it is left in, are those of the run that
+   sees only the frames concerning s (its own frames and GOAWAYs): the trace is a function of the projection
+   of the interleaved frame list onto the stream. *)
+Theorem stream_independent : forall client fs s,
+  exists st1 a1 st2 a2,
+    sm_run client sm_init fs = Some (st1, a1) /\
+    sm_run client sm_init (filter (concerns s) fs) = Some (st2, a2) /\
+    completions_of s a1 = completions_of s a2 /\
+    m_get s (m_streams st1) = m_get s (m_streams st2).
+Proof. exact stream_independent_proof. Qed.
+Print Assumptions stream_independent.
+
+Theorem interleaving_independent : forall client fs fs' s st1 a1 st2 a2,
+  filter (concerns s) fs = filter (concerns s) fs' ->
+  sm_run client sm_init fs = Some (st1, a1) -> sm_run client sm_init fs' = Some (st2, a2) ->
+  completions_of s a1 = completions_of s a2.
+Proof. exact interleaving_independent_proof. Qed.
+Print Assumptions interleaving_independent.
